@@ -100,72 +100,4 @@ def implCfg : DecCfg where
   valid _ v := v != 0 && validScalar v
   unknown c := some c
 
-theorem valid_impl_of_spec {k v} (h : specCfg.valid k v = true) : implCfg.valid k v = true := by
-  simp only [specCfg, Bool.and_eq_true, bne_iff_ne, ne_eq] at h
-  simp only [implCfg, Bool.and_eq_true, bne_iff_ne, ne_eq]
-  refine ⟨h.1, ?_⟩
-  cases k <;> simp at h <;> first | exact h.2 | (simp [validScalar]; omega)
-
-/-- every single-letter escape of the specification is decoded the same way by split.rs (checked against the extracted table) -/
-theorem implTbl_of_spec : ∀ p ∈ simpleTable, Gen.unescSplit.lookup p.1 = some p.2 := by decide
-/-- the extracted table does not shadow the numeric escapes -/
-theorem implTbl_numeric : ∀ c ∈ ['x', 'u', 'U', '0', '1', '2', '3', '4', '5', '6', '7'], Gen.unescSplit.lookup c = none := by decide
-
-theorem lookup_mem {α β} [BEq α] [LawfulBEq α] (l : List (α × β)) (a : α) (b : β)
-    (h : l.lookup a = some b) : (a, b) ∈ l := by
-  induction l with
-  | nil => simp at h
-  | cons p l ih =>
-    obtain ⟨x, y⟩ := p
-    simp only [List.lookup] at h
-    split at h
-    · rename_i he; simp at he; simp at h; subst he; subst h; simp
-    · simp [ih h]
-
-theorem numKind_mem {c k} (h : numKindOf c = some k) : c ∈ ['x', 'u', 'U', '0', '1', '2', '3', '4', '5', '6', '7'] := by
-  unfold numKindOf at h
-  split at h
-  · rename_i hc; simp at hc; subst hc; simp
-  · split at h
-    · rename_i hc; simp at hc; subst hc; simp
-    · split at h
-      · rename_i hc; simp at hc; subst hc; simp
-      · split at h
-        · rename_i hc
-          have h1 : 48 ≤ c.toNat := by have := hc.1; exact this
-          have h2 : c.toNat ≤ 55 := by have := hc.2; exact this
-          have : c = Char.ofNat c.toNat := (Char.ofNat_toNat c).symm
-          rw [this]
-          have : c.toNat = 48 ∨ c.toNat = 49 ∨ c.toNat = 50 ∨ c.toNat = 51 ∨ c.toNat = 52 ∨ c.toNat = 53 ∨ c.toNat = 54 ∨ c.toNat = 55 := by omega
-          rcases this with h | h | h | h | h | h | h | h <;> rw [h] <;> decide
-        · simp at h
-
-theorem decode_impl_of_spec {s d r} (h : decode specCfg s = some (d, r)) : decode implCfg s = some (d, r) := by
-  cases s with
-  | nil => simp [decode] at h
-  | cons c t =>
-    simp only [decode] at h ⊢
-    cases hl : specCfg.tbl.lookup c with
-    | some d' =>
-      simp only [hl] at h
-      have := implTbl_of_spec _ (lookup_mem _ _ _ hl)
-      simp only [implCfg, this]; exact h
-    | none =>
-      simp only [hl] at h
-      cases hk : numKindOf c with
-      | none => simp [hk, specCfg, Option.map] at h
-      | some k =>
-        have hn' : implCfg.tbl.lookup c = none := implTbl_numeric c (numKind_mem hk)
-        simp only [hk] at h
-        simp only [hn', hk]
-        cases hn : readNum k c t with
-        | none => simp [hn] at h
-        | some p =>
-          obtain ⟨v, r'⟩ := p
-          simp only [hn] at h ⊢
-          by_cases hv : specCfg.valid k v = true
-          · simp only [hv, if_true] at h
-            simp only [valid_impl_of_spec hv, if_true]; exact h
-          · simp [hv] at h
-
 end P
